@@ -82,6 +82,13 @@ class MessageManager(interfaces.TokenInterface, interfaces.MessageManager):
             cancellable.cancel()
         self._active_exchanges = None
 
+        # The empty ACKs still pending for requests under processing will not
+        # be sent any more; left armed, their timers would fire into the
+        # transport after it has been shut down.
+        for mid, ack_handle in self._piggyback_opportunities.values():
+            ack_handle.cancel()
+        self._piggyback_opportunities = {}
+
         await self.message_interface.shutdown()
 
     #
